@@ -284,6 +284,15 @@ M('edit-reads-ce-block-extent', 'fault', ['C06'], ['SA-RESHUFFLE.isolation'],
 M('pass-accumulates', 'fault', ['C06'], ['SA-RESHUFFLE.pure'],
   [(ISOH, "        self.efi_lba = current_extent\n", "        self.efi_lba += current_extent\n")], 'update_efi')
 
+M('empty-files-share-inode-iso', 'fault', ['C02', 'C07'], ['SA-IDENT.key'],
+  [(PY, "                        if len_to_use > 0 and extent_to_use in extent_to_inode:\n", "                        if extent_to_use in extent_to_inode:\n")], '_walk_directories')
+M('empty-files-registered-in-map', 'fault', ['C02', 'C07'], ['SA-IDENT.key'],
+  [(PY, "                            if len_to_use > 0:\n                                extent_to_inode[extent_to_use] = ino\n", "                            extent_to_inode[extent_to_use] = ino\n")], '_walk_directories')
+M('empty-files-share-inode-udf', 'fault', ['C02', 'C07'], ['SA-IDENT.key'],
+  [(PY, "                            if next_entry.get_data_length() > 0 and abs_file_data_extent in extent_to_inode:\n", "                            if abs_file_data_extent in extent_to_inode:\n")], '_walk_udf_directories')
+M('twin-empty-guard-rewritten', 'twin', ['C02', 'C07'], [],
+  [(PY, "                        if len_to_use > 0 and extent_to_use in extent_to_inode:\n", "                        if len_to_use != 0 and extent_to_use in extent_to_inode:\n")])
+
 
 def applicable(m, sources):
     for rel, old, new in m['edits']:
